@@ -422,13 +422,16 @@ func (state *BuildState) Stop() {
 }
 
 // CloseResults closes the result channels.
+// The channel is closed by forwardResults once it has passed on every result that was
+// logged before this call; closing it from here would drop the ones it hadn't got to yet.
 func (state *BuildState) CloseResults() {
 	state.progress.cycleDetector.Stop()
 	state.progress.mutex.Lock()
-	defer state.progress.mutex.Unlock()
-	if state.progress.results != nil {
+	hasResults := state.progress.results != nil
+	state.progress.mutex.Unlock()
+	if hasResults {
 		state.progress.resultOnce.Do(func() {
-			close(state.progress.results)
+			state.progress.internalResults <- nil
 		})
 	}
 }
@@ -657,6 +660,13 @@ func (state *BuildState) forwardResults() {
 			}
 		} else {
 			result = <-state.progress.internalResults
+		}
+		if result == nil {
+			// CloseResults was called and everything logged before it has been forwarded.
+			state.progress.mutex.Lock()
+			close(state.progress.results)
+			state.progress.mutex.Unlock()
+			return
 		}
 		if target := result.target; target != nil {
 			if result.Status.IsActive() {
